@@ -72,6 +72,13 @@ Theorem C10_fragmented_rejected s vs els :
   receive2 s LP_PACKET (lp_wire els) = Ok (s, nothing) /\ receive1 s LP_PACKET (lp_wire els) = Ok (s, nothing).
 Proof. exact (fragmented_rejected St Out dispatch on_nack nothing s vs els). Qed.
 
+(* an envelope without a network packet (IDLE, empty Fragment) changes nothing, whatever its headers *)
+Theorem C10_idle_dropped s vs els :
+  envelope_of vs els -> unfragmented vs ->
+  lp_attr vs attr_fragment = VNone \/ lp_attr vs attr_fragment = VBytes [] ->
+  receive2 s LP_PACKET (lp_wire els) = Ok (s, nothing) /\ receive1 s LP_PACKET (lp_wire els) = Ok (s, nothing).
+Proof. exact (idle_dropped St Out dispatch on_nack nothing s vs els). Qed.
+
 (* no exception leaves the unwrap prologue, whatever bytes the face delivers *)
 Theorem C10_prologue_never_raises s typ data :
   is_ok (receive2 s typ data) = true /\ is_ok (receive1 s typ data) = true.
@@ -98,6 +105,12 @@ Theorem C10_token_echo_parses k data :
   exists vs, dec_lp (spec_reply_wire (Some k) data) = Ok vs /\ lp_token vs = Some k /\ lp_fragment vs = Some data /\
              lp_nack vs = None /\ unfragmented vs.
 Proof. exact (token_echo_parses k data). Qed.
+
+(* ... and a peer running this library receives the data with the token *)
+Theorem C10_reply_received k data t n :
+  tl_dec data = Ok (t, n) -> N.of_nat (length (ser_els (token_els k data))) < two64 ->
+  unwrap_v2 LP_PACKET (spec_reply_wire (Some k) data) = UPacket t (Some k) data.
+Proof. exact (reply_unwraps k data t n). Qed.
 
 (* pairing under several outstanding Interests answered in any order: after ANY history [pre] (arrivals with
    other tokens, replies to other Interests), the reply to the i-th arrival carries the i-th arrival's token *)
@@ -134,6 +147,8 @@ Print Assumptions C10_make_nack_received.
 Print Assumptions C10_unknown_headers_ignored.
 Print Assumptions C10_fragmented_rejected.
 Print Assumptions C10_prologue_never_raises.
+Print Assumptions C10_idle_dropped.
+Print Assumptions C10_reply_received.
 Print Assumptions C10_model_meets_spec.
 Print Assumptions C10_token_echo.
 Print Assumptions C10_token_echo_parses.
